@@ -7,6 +7,7 @@
 
 int main(void)
 {
+	setvbuf(stdout, NULL, _IOLBF, 0);
 	char line[256];
 	while (fgets(line, sizeof line, stdin)) {
 		unsigned long long B, L, E;
